@@ -3,11 +3,51 @@ import drivers.c08  # noqa: F401   (registers the drivers)
 
 PROP = "C08"
 LEVEL = "exploration"
-LEVEL_TEXT = "bounded run-time contracts only"
-LEVEL_NOTE = ""
+LEVEL_TEXT = ("Bounded run-time contracts: one canonical-form record (info dict, int / pair / 'calc' spellings, the legacy "
+              "cur_orthog= argument, or none) is threaded through thousands of random operation histories on small random "
+              "matrix product states and through random programs on the three MPS circuit simulators; after every operation "
+              "the record, the left_inds flags, the state and every returned quantity are compared with numpy computations on "
+              "the raw site arrays and on the dense vector. Nothing is proved by this part; it notices behavioural changes on "
+              "the stated domain.")
+LEVEL_NOTE = ("Trusted: numpy (tensordot, svd, qr, Generator) as reference; Tensor.data / .inds / .tags / .left_inds and "
+              "MatrixProductState.L as read accessors; numpy's Generator.choice(p=) inverting the cdf at one uniform draw "
+              "(self-checked at start-up). Tolerances 1e-8 (double) / 3e-4 (single) on isometry defects and states, x10 on "
+              "derived values; 1e-4 on the state after operations that split with the documented default cutoff 1e-10 "
+              "(relative discarded weight), tight when cutoff=0.0 is requested (half of those cases).")
 TECHNIQUE = "run-time contracts on the real functions vs independent numpy references over a stated bounded domain (bounded stand-in)"
 E1 = []
 PROVIDERS = []
-TRUSTED = ["numpy reference computations"]
-ASSUMPTIONS = []
-EXPLANATION = ""
+TRUSTED = [
+    "numpy reference computations (tensordot / svd / qr / random Generator) on raw arrays",
+    "read accessors Tensor.data, .inds, .tags, .left_inds, TensorNetwork.tensors, MatrixProductState.L / ind_size",
+    "numpy Generator.choice(n, p=p) consumes one .random() double and inverts the cdf (checked when the driver starts; "
+    "if it no longer holds the sampling contracts are reported inconclusive)",
+]
+ASSUMPTIONS = [
+    "open-boundary MPS only (cyclic chains make no isometry claim), stored exponent 0, L 1..8, initial bond 1..4, physical "
+    "dimension 2 / 3 / mixed, four dtypes, states kept normalised (a non-unitary step is followed by an independent "
+    "normalisation placed inside the recorded range)",
+    "operators are well conditioned (singular values in [0.5, 1.5], or identity plus a 0.35-perturbation for random "
+    "sub-MPOs); a non-unitary one-site gate through the generic gate(contract=True/False) route is only applied inside the "
+    "recorded range (that route does not interpret the record: stated precondition of DESIGN C08)",
+    "callers of record-free operations (shift_orthogonality_center, left/right_canonicalize, gate_split) update the record "
+    "as documented (DESIGN B.2) and hand a sound record in",
+    "a record is counted sound only if it is a site range of the chain (0 <= cmin <= cmax < L) -- the literal statement is "
+    "vacuous for out-of-range records; this is what makes measure(L-1, remove=True) a finding (C08-d)",
+    "record soundness of the circuit classes is evaluated whenever _psi holds exactly one tensor per site (CircuitMPSLazy "
+    "between compressions makes no claim)",
+    "history lengths <= 12 (quick) / <= 60 (thorough) operations; circuit programs <= 10 / <= 24 steps on 2..6 qubits",
+]
+EXPLANATION = (
+    "Driver mps-record-histories: random histories over canonicalize(_)/canonize, shift_orthogonality_center, "
+    "left/right_canonicalize(_), gate(_) in every MPS mode, gate_split(_), gate_with_auto_swap(_), gate_with_submpo(_), "
+    "gate_nonlocal(_), swap_sites_with_compress(_), swap_site_to(_), compress_site, singular_values, schmidt_values, entropy, "
+    "schmidt_gap, magnetization, partial_trace_to_dense_canonical, local_expectation_canonical, "
+    "compute_local_expectation_canonical, measure(_), sample_configuration, sample. Four contracts per operation: the record "
+    "is sound for the object the caller goes on using (isometry defects recomputed with numpy), flagged left_inds are "
+    "isometries, the state equals the dense reference (and the receiver of a non-in-place call is unchanged), the returned "
+    "quantity equals its dense-state definition (SVD of the reshaped vector, reduced density matrices, <O>, spin operators "
+    "from an own table, measurement / sampling outcomes consistent with the dense probabilities at the same uniform draws). "
+    "Driver circuit-mps-record: CircuitMPS / CircuitPermMPS / CircuitMPSLazy keep Sound(gate_opts['info'], _psi) over "
+    "gates, local_expectation, sample, fidelity_estimate, copy; local_expectation and fidelity_estimate agree with the "
+    "stored state.")
